@@ -37,6 +37,8 @@ ANCHORS: Dict[str, Tuple[int, str]] = {
     "teaal.trans.equation.Equation.__make_output_only_iter_expr": (
         1, "iterating an output-only flattened rank"),
     "teaal.parse.bindings.Bindings.__init__": (1, "Einsum without accelerator config in the bindings"),
+    "teaal.parse.bindings.Bindings.get_config": (
+        1, "Einsum that the bindings do not mention at all (no accelerator config either)"),
 }
 PREDICATES = ["teaal.ir.partitioning.Partitioning.__nway_after_dyn"]
 
@@ -438,6 +440,38 @@ def run(db: DB, rep: Report) -> None:
                       "depends on the order in which its entries are written" %
                       (db.loc(r), hits[0][0] if hits else "", hits[0][1] if hits else ""))
 
+    # ---- E11: "also partitioned independently" looks at every key the rank occurs in ---------
+    rep.rule("E11", "the 'rank is also partitioned independently' guard of flatten() ranges over all "
+             "partitioning keys that contain the rank", 1)
+    cf = db.func("teaal.ir.partitioning.Partitioning.__check_flatten")
+    n_e11 = 0
+    for r in [x for x in walk_no_nested(cf.node) if isinstance(x, ast.Raise) and _is_value_error(x)]:
+        for t, pol in paths.guards(r, stop=cf.node)[-1:]:
+            txt = paths.inlined_text(t, cf.node)
+            if "all_parts" not in txt and cf.call_params[1:2] and cf.call_params[1] not in txt:
+                continue
+            if not any(isinstance(x, ast.Name) and x.id in cf.call_params[1:2] for x in ast.walk(t)):
+                continue
+            # the per-rank guard: inside a loop over the flattened tuple, reading the loop's rank
+            lps_ = [p_ for p_ in paths.parents(r, cf.node) if isinstance(p_, ast.For)]
+            if not lps_ or not ({x.id for x in ast.walk(lps_[0].target) if isinstance(x, ast.Name)}
+                                & paths.load_names(t)):
+                continue
+            n_e11 += 1
+            scans = any(isinstance(x, (ast.GeneratorExp, ast.ListComp, ast.SetComp)) and
+                        any(cf.call_params[1] in paths.load_names(g.iter) for g in x.generators)
+                        for x in ast.walk(t))
+            lookup = any(isinstance(x, ast.Compare) and isinstance(x.left, ast.Tuple) and len(x.left.elts) == 1
+                         and isinstance(x.ops[0], (ast.In, ast.NotIn)) for x in ast.walk(t))
+            rep.check("E11", scans, db.loc(r), cf.short, "independently-partitioned",
+                      "the guard scans every key of the partitioning for the rank",
+                      "Partitioning.__check_flatten decides 'this rank is also partitioned independently' "
+                      "from %s, i.e. from the single-rank key only: a rank that is part of another rank "
+                      "tuple (a second flattening) passes, and the specification compiles to loops that "
+                      "iterate the shared rank independently" % txt[:70], decided=scans or lookup)
+    if n_e11 < 1:
+        rep.undecided("E11", db.loc(cf.node), cf.short, "the 'also independently partitioned' guard was not found")
+
     # ---- E10: "declared" means declared: the table the undeclared-tensor check looks in is
     # filled once per entry of the Einsum's declaration, and from nothing else
     rep.rule("E10", "the tensor table is keyed by the declaration's entries only", 1)
@@ -615,6 +649,11 @@ def mutants(db: DB):
     pt = "teaal/ir/partitioning.py"
     eq = "teaal/ir/equation.py"
     return [
+        M("revert F17 fix (KeyError for an unlisted Einsum)", "teaal/parse/bindings.py",
+          "        # Note: an Einsum with no entry in the bindings has no config either\n        if einsum not in self.configs:\n            raise ValueError(\n                \"Accelerator config and prefix missing for Einsum \" + einsum)\n\n", "", "E1"),
+        M("revert F15 fix (only the single-rank key is looked up)", "teaal/ir/partitioning.py",
+          "            if any(rank in other_ranks and other_ranks != part_ranks and parts\n                   for other_ranks, parts in all_parts.items()):",
+          "            if (rank,) in all_parts and all_parts[(rank,)]:", "E11"),
         M("shape-after-flatten guard asks the graph being built", "teaal/ir/partitioning.py",
           "                    if source_name not in self.orig_ranks:\n                        raise ValueError(\n                            \"Shape-based",
           "                    if self.is_flattened(source_name):\n                        raise ValueError(\n                            \"Shape-based",
